@@ -32,6 +32,23 @@ class Product:
             self.dir = env.scratch_root() / f"prod_{self.tag}"
             synth.write_local(self.dir, files)
             self.url = str(self.dir) if kind == "local" else self.dir.as_uri()
+        elif kind.startswith("links-"):
+            # a local product some of whose entries are symbolic links (images kept on another disk, annexed checkouts):
+            # links-img = the IMG- files, links-all = every file, links-dir = the product directory itself
+            self.real = env.scratch_root() / f"real_{self.tag}"
+            self.dir = env.scratch_root() / f"prod_{self.tag}"
+            synth.write_local(self.real, files)
+            if kind == "links-dir":
+                os.symlink(self.real, self.dir)
+            else:
+                self.dir.mkdir(parents=True)
+                for name in files:
+                    if kind == "links-all" or name.startswith("IMG-"):
+                        os.symlink(self.real / name, self.dir / name)
+                    else:
+                        shutil.copyfile(self.real / name, self.dir / name)
+            self.url = str(self.dir)
+            self.kind = "local"
         elif kind == "memory":
             self.root = f"/mem_{self.tag}"
             synth.write_memory(self.root, files)
@@ -100,7 +117,11 @@ class Product:
         if self.kind == "mcfs":
             vfs.drop_store(self.store)
         elif self.kind in ("local", "file"):
+            if self.dir.is_symlink():
+                self.dir.unlink()
             shutil.rmtree(self.dir, ignore_errors=True)
+            if getattr(self, "real", None) is not None:
+                shutil.rmtree(self.real, ignore_errors=True)
         else:
             import fsspec
 
